@@ -33,7 +33,8 @@ package caching
 //@   requires pmShape(self) && isMask(self.m) && vt != nil && pmFree(self) && self.n < 4611686018427387904
 //@   modifies self.n, self.b[_]
 //@   ensures pmShape(self) && self.m == old(self.m) && same(self.b, old(self.b)) && self.n == old(self.n) + 1
-//@   ensures exists q int :: 0 <= q && q < len(self.b) && old(self.b[q].vt) == nil && self.b[q].vt == vt && self.b[q].fn == fn && (forall j int :: 0 <= j && j < len(self.b) && j != q ==> same(self.b[j], old(self.b[j])))
+//@   witness q int = p
+//@   ensures 0 <= q && q < len(self.b) && old(self.b[q].vt) == nil && self.b[q].vt == vt && self.b[q].fn == fn && (forall j int :: 0 <= j && j < len(self.b) && j != q ==> same(self.b[j], old(self.b[j])))
 //@   loop 0: invariant 0 <= p && p <= self.m && i <= self.m + 1 && pmShape(self) && self.m == old(self.m) && same(self.b, old(self.b)) && self.n == old(self.n)
 //@   loop 0: invariant forall j int :: 0 <= j && j < len(self.b) ==> same(self.b[j], old(self.b[j]))
 //@   loop 0: invariant int(p) == ite(int(h & self.m) + int(i) < len(self.b), int(h & self.m) + int(i), int(h & self.m) + int(i) - len(self.b))
